@@ -110,11 +110,15 @@ def run(tier: str, opts: dict) -> int:
     cases, n_exec = enumerate_cases(sqlgen.TABLE_PROFILE, D, depth)
     known = {sql for sql, _ in cases}
     more, n2 = enumerate_cases(sqlgen.TABLE_SETOP, D - 1, depth)  # second centre: union of two derived tables
-    cases += [c for c in more if c[0] not in known]
+    more = [c for c in more if c[0] not in known]
+    second = {id(c[1][0]) for c in more}
+    cases += more
     n_exec += n2
     tasks = []
     for sql, (st, trace, ndev) in cases:
         for d in dialects:
+            if tier != "quick" and id(st) in second and ndev >= 2 and d not in QUICK_DIALECTS and "dialects" not in opts:
+                continue  # thorough: the outer shell of the second ball under the 7 grammar families
             if st["kind"] == "select_into" and d not in SELECT_INTO_OK:
                 continue  # SELECT ... INTO x assigns a variable in the mysql family: not a data-moving form there
             if tier != "quick" and ndev >= 3 and d not in QUICK_DIALECTS and "dialects" not in opts:
@@ -122,7 +126,7 @@ def run(tier: str, opts: dict) -> int:
             tasks.append((st, d))
     # file paths (COPY in both directions, INSERT OVERWRITE DIRECTORY, files in FROM): a second ball around a path-bearing centre,
     # under the dialects whose grammar has these forms (thorough: all dialects; sqlfluff's acceptance decides the domain)
-    pcases, pn = enumerate_cases(sqlgen.PATH_PROFILE, int(opts.get("Dp", D)), depth)
+    pcases, pn = enumerate_cases(sqlgen.PATH_PROFILE, int(opts.get("Dp", 2)), depth)  # both tiers: two deviations; thorough: under all dialects
     pcases = [c for c in pcases if has_path(c[1][0])]
     n_exec += pn
     path_ids = set()
@@ -204,7 +208,7 @@ def run(tier: str, opts: dict) -> int:
         per_statement_kind=per_kind,
         path_statements={"distinct": len(pcases), "accepted_evaluations_per_kind": path_accepted,
                          "rule": "second ball around INSERT OVERWRITE DIRECTORY '<p>' SELECT c1 FROM parquet.`<p>`: COPY t FROM / COPY t TO / COPY (query) TO / "
-                                 "INSERT OVERWRITE [LOCAL] DIRECTORY / files in any FROM slot, same deviation bound"},
+                                 "INSERT OVERWRITE [LOCAL] DIRECTORY / files in any FROM slot, <= 2 deviations (thorough: under every dialect)"},
         rejected_by_dialect=skipped,
     )
     rep.assumptions += [
